@@ -80,6 +80,7 @@ func init() {
 			{"", "bstrUnmarshal", "bstrUnmarshal"},
 			{"File", "GetRows", "GetRows"},
 			{"File", "getImageCellRel", "getImageCellRel"},
+			{"", "namespaceStrictToTransitional", "nsStrict"},
 			{"", "isOverlap", "isOverlap"},
 			{"", "mergeCell", "mergeCell"},
 			{"", "flatMergedCells", "flatMergedCells"},
@@ -116,6 +117,19 @@ func init() {
 			c14List(w, "extractStyleCondFuncs", entries)
 		} else {
 			fail("var extractStyleCondFuncs")
+		}
+		// namespaceStrictToTransitional: the loop conditions carry the bounds of the two backward scans
+		if fd := funcDecl("", "namespaceStrictToTransitional"); fd != nil && fd.Body != nil {
+			var loops []string
+			ast.Inspect(fd.Body, func(n ast.Node) bool {
+				if fs, ok := n.(*ast.ForStmt); ok && fs.Cond != nil {
+					loops = append(loops, c14Norm(src(fs.Cond)))
+				}
+				return true
+			})
+			c14List(w, "loops_nsStrict", loops)
+		} else {
+			fail("function namespaceStrictToTransitional")
 		}
 		// every index / slice expression of the read-side files whose index is taken from a struct field
 		// (`a[x.F]`, `a[*x.F]`, `a[x.F-1]`, `a[:x.F]`): the syntactic shape of "indexed by a decoded value".
